@@ -390,6 +390,38 @@ def _list_forms(run: Run, prog: Program, model: Model, tier: str) -> None:
                 run.holds("SIBLING-FORMS", c2, vf.loc, "same slice and window start", nontrivial=True)
     run.floor("LIST-FORMS", 10)
     run.floor("SIBLING-FORMS", 8)
+    # TYPED-COVER: in the typed form every element of the value is handed to the element type (two iterations,
+    # so that a decision depending on earlier elements is explored)
+    for vis in VALIDATORS:
+        f = model.visitors[vis].lookup("visit_list")
+        cfg = Config(("type",), {"type": lambda: __import__("sa.visits", fromlist=["member"]).member("T")}, label="{type}")
+        paths = run_visit(prog, model, vis, "visit_list", cfg, validator_ctx, unroll=2)
+        probs: List[str] = []
+        seen_iter = 0
+        for p in paths:
+            loops = [e for e in p.events if e.kind == "loop" and e.func == f.qualname and "enumerate(value" in e.data["iterable"].key()]
+            if not loops:
+                continue
+            n = loops[-1].data["iterations"]
+            seen_iter = max(seen_iter, n)
+            acc = [e for e in p.events if e.kind == "accept" and e.func == f.qualname]
+            skipped = n - len(acc)
+            if skipped > 0:
+                # documented relaxation of the substitution validator: `...` placeholders at the ends
+                ell = sum(1 for k, _, b in p.facts if k.startswith("isinstance(elem") and "ellipsis" in k and b)
+                if vis == "SubstitutorValidator" and ell >= skipped:
+                    continue
+                why = [k for k, _, b in p.facts if ("elem" in k and not k.startswith("isinstance(value"))][-1:]
+                probs.append(f"{skipped} of {n} elements are not validated against the element type" + (f" (when {why[0][:70]})" if why else ""))
+        c = f"{vis}.visit_list typed form: every element validated"
+        if probs:
+            run.violated("TYPED-COVER", c, f.loc, "; ".join(sorted(set(probs)))[:300],
+                         witness="validate(schema.list(schema.int), [7, 7.0]) style: a later element escapes the element schema")
+        elif seen_iter >= 2:
+            run.holds("TYPED-COVER", c, f.loc, "each of the iterated elements reaches type_schema.__accept__", nontrivial=True)
+        else:
+            run.undecided("TYPED-COVER", c, f.loc, "typed loop not recognised")
+    run.floor("TYPED-COVER", 2)
 
 
 def _sibling(run: Run, prog: Program, model: Model) -> None:
@@ -485,4 +517,10 @@ MUTANTS += [
     {"name": "head form reports surplus elements", "rule": "LIST-FORMS",
      "edits": [(V_, "            errors = self._validate_elements(path, value, elements[:-1], **kwargs)\n            return result.add_errors(errors)\n\n        # tail",
                 "            errors = self._validate_elements(path, value, elements[:-1], **kwargs)\n            result.add_errors(errors)\n            for index in range(len(elements) - 1, len(value)):\n                result.add_error(ExtraElementValidationError(path, value, index))\n            return result\n\n        # tail")]},
+]
+
+MUTANTS += [
+    {"name": "typed list skips elements equal to an already validated one", "rule": "TYPED-COVER",
+     "edits": [(V_, "            for index, elem in enumerate(value):\n                nested_path = deepcopy(path)[index]\n                res = type_schema.__accept__(self, value=elem, path=nested_path, **kwargs)\n                result.add_errors(res.get_errors())",
+                "            done = []\n            for index, elem in enumerate(value):\n                if elem in done:\n                    continue\n                nested_path = deepcopy(path)[index]\n                res = type_schema.__accept__(self, value=elem, path=nested_path, **kwargs)\n                result.add_errors(res.get_errors())\n                done.append(elem)")]},
 ]
